@@ -54,6 +54,9 @@ type ConcProg struct {
 	// PreMerge (RAM index modes): before the goroutines start, two segments are written and DB.Merge is called once,
 	// so the concurrent phase runs on a database that has been merged (whatever state Merge leaves behind is in effect).
 	PreMerge bool `json:"premerge,omitempty"`
+	// Fresh: two segments are written, then every database is closed and opened again, so the goroutines (and a
+	// Merge goroutine) run the very first transactions of a new handle concurrently (lazily created per-handle state).
+	Fresh bool `json:"fresh,omitempty"`
 }
 
 var concKeys = []string{"k1", "k2", "k3", "k4"}
@@ -80,6 +83,9 @@ func genConcProg(maxG int, modes []int, merge, backup bool) *rapid.Generator[Cas
 		}
 		if c.Cfg.Mode != 2 && rapid.IntRange(0, 7).Draw(t, "premerge") == 5 {
 			p.PreMerge = true
+		}
+		if rapid.IntRange(0, 3).Draw(t, "fresh") == 2 {
+			p.Fresh = true
 		}
 		ng := rapid.IntRange(2, maxG).Draw(t, "ng")
 		for g := 0; g < ng; g++ {
